@@ -1105,7 +1105,18 @@ def _add_data_producers():
                 watched = _argfp(noise)
                 try:
                     desc_arg = None if (o['a'][5] % 4 == 0 and method not in ('crossnobis', 'poisson_cv')) else 'cond'      # None: every observation its own pattern
-                    calc_rdm(obj, method=method, descriptor=desc_arg, cv_descriptor=cvd, noise=noise)
+                    r_ = calc_rdm(obj, method=method, descriptor=desc_arg, cv_descriptor=cvd, noise=noise)
+                    # the RDMs that come back are the caller's to re-order: documented in-place operations on the result do
+                    # not reach the dataset they were computed from
+                    if r_.n_cond > 1:
+                        r_.reorder(list(range(r_.n_cond))[::-1])
+                        keys_ = sorted(k for k in r_.pattern_descriptors if k != 'index' and _scalar_valued(r_.pattern_descriptors[k]))
+                        if keys_:
+                            try:
+                                r_.sort_by(**{keys_[0]: 'alpha'})
+                            except Exception:
+                                pass
+                        name += '+reorder'
                 finally:
                     if _argfp(noise) != watched:
                         self.pool.report('C12', 'bystander', f'bystander:{name.split("+")[0]}:argument:noise',
